@@ -449,6 +449,7 @@ func resetEvaluation[T FieldParams](e *Element[T]) {
 	e.isEvaluated = false
 }''')])
 save('benign-statereset-helper','C11','std/math/emulated/field_mul.go','mvCheck.cleanEvaluations clears the cached evaluations through a helper')
+m('relaxuse-uints-add','C14',['RELAX-USE','OPT-RELAX'],'std/math/uints/uint8.go','''	vreslow, _ := bitslice.Partition(bf.api, vres, uint(tLen), bitslice.WithNbDigits(maxBitlen))''','''	vreslow, _ := bitslice.Partition(bf.api, vres, uint(tLen), bitslice.WithNbDigits(maxBitlen), bitslice.WithUnconstrainedOutputs())''',note='F9 reintroduced')
 json.dump({'comment':'selftest mutants: each patch breaks one rule instance and must be detected by the listed rule(s) of its property; produced by tools/make_selftest.py','mutants':M}, open(os.path.join(root,'selftest','mutants.json'),'w'), indent=1)
 subprocess.run(['git','-C','/repo','worktree','remove','--force',WT],capture_output=True)
 print(len(M),'mutants')
